@@ -58,7 +58,8 @@ def run(ctx):
     ctx.rule = ("case = (mode, abandonment point, size regime incl. both sides of the 1 MiB mmap threshold, "
                 "keyed/by-address, declared size?); abandonment points: right after open, after k chunks, write in "
                 "flight (future polled once, then dropped), after flush, after close()/shutdown(), commit rejected "
-                "by size, commit rejected by integrity; interleaved with successful writes to the same and other "
+                "by size, commit rejected by integrity, commit failing for an I/O reason (a regular file where the shard directory "
+                "must be; the temp area is also listed while the returned error is still alive); interleaved with successful writes to the same and other "
                 "keys. After each: listing + metadata of all keys compared before/after, and once the driver's "
                 "tmp_quiesce returned, a census of regular files under the cache root outside index-v5/ and "
                 "content-v2/. distinct = distinct (mode, point, size regime, keyed, declared) tuples")
@@ -71,7 +72,8 @@ def run(ctx):
     for i in range(n):
         mode = modes[i % len(modes)]
         is_async = mode.startswith("async")
-        points = ["open_drop", "chunks_drop", "flush_drop", "reject_size", "reject_integrity", "reject_size_more"]
+        points = ["open_drop", "chunks_drop", "flush_drop", "reject_size", "reject_integrity", "reject_size_more",
+                  "io_failed_commit"]
         if is_async:
             points += ["busy_drop", "close_drop", "close_commit"]
         point = points[(i // len(modes)) % len(points)]
@@ -140,6 +142,25 @@ def run(ctx):
                 opts = {"size": rng.choice([MIB + 1, MIB + 4096, 2 * MIB + 7])}
                 chunks = gen.split(data, gen.chunking(rng, ln, shape="halves")[1])
                 point, final = "reject_size", "commit"
+        obstacle = None
+        if point == "io_failed_commit":
+            # the commit fails for an I/O reason: where the content's shard directory has to be, there is a regular file
+            final = "commit"
+            shared_content = False
+            data = rng.randbytes(max(1, ln))
+            ln = len(data)
+            chunks = gen.split(data, gen.chunking(rng, ln)[1])
+            opts = {"size": ln} if declared else {}
+            hx = ref.sri_address(ref.sri("sha256", data))[1]
+            shard = os.path.join(cache, "content-v2", "sha256", hx[:2])
+            if not os.path.exists(shard):
+                os.makedirs(os.path.dirname(shard), exist_ok=True)
+                with open(shard, "wb") as f:
+                    f.write(b"in the way")
+                obstacle = shard
+            else:
+                point = "chunks_drop"      # that shard is already in use: an ordinary abandoned writer instead
+                final = "drop"
         req = {"op": "writer", "cache": cache, "opts": opts, "chunks": [ctx.data(c) for c in chunks], "final": final}
         if keyed:
             req["key"] = key
@@ -151,6 +172,8 @@ def run(ctx):
         resps = ctx.batch(mode, reqs, timeout=60)
         ns = len(snap)
         before, w, q, after = resps[:ns], resps[ns], resps[ns + 1], resps[ns + 2:]
+        if obstacle:
+            os.unlink(obstacle)
         regime = "<=1MiB" if ln <= MIB else ">1MiB"
         dk = (mode, point, regime, keyed, declared, shared_content)
         ctx.case(distinct_key=dk, sample={"mode": mode, "point": point, "len": ln, "keyed": keyed,
@@ -166,11 +189,23 @@ def run(ctx):
             want = "IntegrityError" if point == "reject_integrity" else "SizeMismatch"
             if v != want:
                 ctx.violation(sig + f"|{v}", f"commit that must be rejected with {want} gave {ev.brief(w)}", det)
+        elif point == "io_failed_commit":
+            if v != "IoError":
+                ctx.violation(sig + f"|{v}", f"commit into a content area whose shard directory is a regular file gave {ev.brief(w)}", det)
         elif point == "close_commit":
             if v == "PANIC" or v in ("HANG", "DIED"):
                 ctx.violation(sig + f"|{v}", f"commit after close gave {ev.brief(w)}", det)
         elif v != "Ok":
             ctx.violation(sig + f"|{v}", f"abandoning a writer ({point}) reported {ev.brief(w)}", det)
+        # a failed commit has consumed the writer: nothing of it may be left while the caller still holds the error
+        alive = (w.get("err") or {}).get("stray_while_error_alive") if isinstance(w.get("err"), dict) else None
+        if alive:
+            ctx.count("temp_files_alive_with_error")
+            ctx.violation(sig + "|tmp-alive-while-error-held", f"{point}: commit failed ({v}) and the writer is gone, but while the "
+                          f"caller holds the returned error {len(alive)} temp file(s) are still there: "
+                          f"{[os.path.relpath(x, cache) for x in alive[:3]]}", det)
+        elif alive is not None:
+            ctx.count("failed_commits_inspected_while_error_alive")
         if "bg_panic" in w:
             ctx.violation(sig + "|bg_panic", f"background panic while abandoning a writer: {w['bg_panic']}", det)
         # (1) no effect on lookups / listings, except a commit that legitimately succeeded
